@@ -33,7 +33,7 @@ def tree_calls(tree):
 
 
 def strip_casts(t):
-    while isinstance(t, list) and t and t[0] in ("cast", "iconv", "decay"):
+    while isinstance(t, list) and t and t[0] in ("cast", "iconv", "decay", "stmtexpr"):
         t = t[-1]
     return t
 
